@@ -40,6 +40,25 @@ def run(R, ctx):
     duplication(R, ctx)
     dup_roundtrip(R, ctx)
     enabled_ceiling(R, ctx)
+    # a record addressed to a writer only reaches FlexiLogger::log if log's global max level lets it pass: the gate must take the
+    # highest ceiling of all additional writers into account (shared with C02 R02.4)
+    R.rule('R13.6', 'global max level >= every additional writer\'s ceiling (shared with R02.4)')
+    import c02
+    c02.global_gate(_Relabel(R, 'R02.4', 'R13.6'), ctx)
+
+
+class _Relabel:
+    def __init__(self, R, frm, to):
+        self.R, self.frm, self.to = R, frm, to
+
+    def check(self, rule, *a, **kw):
+        return self.R.check(self.to if rule == self.frm else rule, *a, **kw)
+
+    def bad(self, rule, *a, **kw):
+        return self.R.bad(self.to if rule == self.frm else rule, *a, **kw)
+
+    def ok(self, rule, *a, **kw):
+        return self.R.ok(self.to if rule == self.frm else rule, *a, **kw)
 
 
 # ------------------------------------------------------------------------------------------------ R13.1
